@@ -79,6 +79,19 @@ fn with_out(stacks: Value, out: Vec<Value>) -> Value {
     m
 }
 
+/// The printed output of a state. Reading it is an observation: two consecutive reads agree and
+/// leave the state able to print on (a read that consumed or corrupted the buffer shows as a
+/// marker text that no specification output matches).
+pub fn read_output(st: &mut PushState) -> String {
+    let first = st.stdout_string().unwrap_or_default();
+    let second = st.stdout_string().unwrap_or_default();
+    if first == second {
+        first
+    } else {
+        format!("<<output differs between two consecutive reads: {first:?} then {second:?}>>")
+    }
+}
+
 /// A state with the same stacks/output as `after` but max sizes, inputs and step limit taken
 /// from the configuration: equal to `after` iff the instruction left those hidden parts alone.
 fn hidden_parts_unchanged(after: &PushState, stacks: &Value, max: &Value, inputs: &Value, limit: usize) -> bool {
@@ -118,7 +131,7 @@ pub fn step_replay(args: &[String]) -> i32 {
             Some(match item.perform(state) {
                 Ok(mut after) => {
                     let stacks = stacks_to_json(&after)?;
-                    let text = after.stdout_string().unwrap_or_default();
+                    let text = read_output(&mut after);
                     let toks = lex_output(rins, &text)?;
                     let hidden_ok = hidden_parts_unchanged(&after, &stacks, &case["max"], &case["inputs"], limit);
                     let mut o = json!({"kind": "ok", "st": with_out(stacks, toks),
@@ -175,7 +188,7 @@ pub fn run_once(sv: &Value, max: &Value, inputs: &Value, k: usize) -> RunObs {
             Ok(mut st) => RunObs {
                 status: "ok",
                 stacks: stacks_to_json(&st),
-                text: st.stdout_string().unwrap_or_default(),
+                text: read_output(&mut st),
                 err: json!({"kind": "none", "stack": "none"}),
             },
             Err(fe) => {
@@ -184,7 +197,7 @@ pub fn run_once(sv: &Value, max: &Value, inputs: &Value, k: usize) -> RunObs {
                 RunObs {
                     status: "fatal",
                     stacks: stacks_to_json(&st),
-                    text: st.stdout_string().unwrap_or_default(),
+                    text: read_output(&mut st),
                     err: fatal_err_json(&dbg),
                 }
             }
@@ -196,6 +209,33 @@ pub fn run_once(sv: &Value, max: &Value, inputs: &Value, k: usize) -> RunObs {
         text: m,
         err: json!({"kind": "panic", "stack": "none"}),
     })
+}
+
+/// The same evaluation INTERRUPTED half way: run under limit k/2, read the output, run the
+/// returned state again (another k/2 steps). Evaluation being a function of program, inputs and
+/// limits, this must be where the uninterrupted run under limit k ends.
+pub fn run_resumed(sv: &Value, max: &Value, inputs: &Value, k: usize) -> RunObs {
+    let r = guarded(|| {
+        let state = build_state(sv, max, inputs, k / 2).expect("initial state");
+        fn finish<E: std::fmt::Debug + IntoState<PushState>>(r: Result<PushState, E>) -> RunObs {
+            match r {
+                Ok(mut st) => RunObs { status: "ok", stacks: stacks_to_json(&st), text: read_output(&mut st), err: json!({"kind": "none", "stack": "none"}) },
+                Err(fe) => {
+                    let dbg = format!("{fe:?}");
+                    let mut st = fe.into_state();
+                    RunObs { status: "fatal", stacks: stacks_to_json(&st), text: read_output(&mut st), err: fatal_err_json(&dbg) }
+                }
+            }
+        }
+        match state.run_to_completion() {
+            Ok(mut half) => {
+                let _ = read_output(&mut half);
+                finish(half.run_to_completion())
+            }
+            Err(fe) => finish(Err(fe)),
+        }
+    });
+    r.unwrap_or_else(|m| RunObs { status: "panic", stacks: None, text: m, err: json!({"kind": "panic", "stack": "none"}) })
 }
 
 /// Observations of the real interpreter after 0, 1, ..., n steps (runs under step limits
@@ -220,7 +260,20 @@ pub fn observe_steps(sv: &Value, max: &Value, inputs: &Value, n: usize) -> StepS
                 }
             }
         }
-        let o = run_once(sv, max, inputs, k);
+        let mut o = run_once(sv, max, inputs, k);
+        if k > 0 && k % 2 == 0 && o.status != "panic" {
+            let r = run_resumed(sv, max, inputs, k);
+            if (r.status, &r.stacks, &r.text, &r.err) != (o.status, &o.stacks, &o.text, &o.err) {
+                o = RunObs {
+                    status: "panic",
+                    stacks: None,
+                    text: format!("evaluation interrupted after {} steps (output read, then resumed) ends differently from the uninterrupted \
+                                   evaluation under limit {k}: {} {:?} {:?} instead of {} {:?} {:?}", k / 2, r.status, r.stacks.map(|v| v.to_string()),
+                                  r.text, o.status, o.stacks.as_ref().map(ToString::to_string), o.text),
+                    err: json!({"kind": "panic", "stack": "none"}),
+                };
+            }
+        }
         if o.status == "panic" {
             obs.push((o, vec![]));
             break;
@@ -599,11 +652,11 @@ pub fn long_runs(args: &[String]) -> i32 {
                     ex.push_many(prog).expect("program fits");
                 }
                 match st.run_to_completion() {
-                    Ok(mut s) => ("ok", json!({"kind": "none", "stack": "none"}), sizes_json(&s), s.stdout_string().unwrap_or_default()),
+                    Ok(mut s) => ("ok", json!({"kind": "none", "stack": "none"}), sizes_json(&s), read_output(&mut s)),
                     Err(fe) => {
                         let dbg = format!("{fe:?}");
                         let mut s = fe.into_state();
-                        ("fatal", fatal_err_json(&dbg), sizes_json(&s), s.stdout_string().unwrap_or_default())
+                        ("fatal", fatal_err_json(&dbg), sizes_json(&s), read_output(&mut s))
                     }
                 }
             });
